@@ -170,7 +170,9 @@ func sizePollCase(k *engine.Case) {
 	}
 	stop.Store(true)
 	wg.Wait()
-	k.Evals(polls.Load())
+	// one evaluation per case: the number of readings depends on the speed of the machine and
+	// is reported as a counter only
+	k.Evals(1)
 	k.Count("size_poll_readings", polls.Load())
 	if w := worst.Load(); w > int64(n) {
 		k.Fail("stress:size-over-capacity", "capacity %d: a concurrent reader saw a size of %d while one Set was evicting", n, w)
